@@ -23,6 +23,7 @@ pub fn def() -> CheckDef {
         cpu_limit_s: 30,
         fault_kinds: "none (interleaving of handle clients with mutators)",
         count_subruns: false,
+        expect_probes: &["node_with_two_siblings", "unallocated_entries_present"],
     }
 }
 
